@@ -1,6 +1,7 @@
 package srvworld
 
 import (
+	"fmt"
 	"testing"
 
 	"github.com/pion/turn/v5/internal/zzverif/vkit"
@@ -23,7 +24,7 @@ func TestC04(t *testing.T) {
 	runProp(t, &propSpec{
 		id: "C04",
 		profile: &Profile{
-			Name: "C04", MinSteps: 8, MaxSteps: 40, MaxClient: 4, Odd: true,
+			Name: "C04", MinSteps: 8, MaxSteps: 40, MaxClient: 4, OddSometimes: true, Fragments: []string{"perm", "chan", "alloc"},
 			Weights: map[string]int{"Allocate": 10, "Refresh": 8, "CreatePermission": 12, "ChannelBind": 12, "Send": 12, "ChannelData": 12, "PeerData": 14, "Sleep": 6, "Binding": 2, "RelayError": 1},
 		},
 		nontrivial: func(st *Stats, sc *Script) bool {
@@ -33,6 +34,7 @@ func TestC04(t *testing.T) {
 
 			return has(st, "cd-drop:other-clients-channel") || has(st, "txid-reused-across-clients") || has(st, "refresh-other-user") || has(st, "peer-drop:other-authorisation-live") || has(st, "allocate-437")
 		},
+		post: relationalC04,
 	})
 }
 
@@ -213,4 +215,56 @@ func TestC09(t *testing.T) {
 			return has(st, "hostile-passes-demultiplexing") || has(st, "hostile-in-allocated-state")
 		},
 	})
+}
+
+// relationalC04 is the metamorphic form of C04: project the history onto one client (drop every
+// other client's steps, keep the elapsed time), run it in a fresh world, and require that this
+// client and the peers of its relay observe exactly the same.
+func relationalC04(t *testing.T, r *vkit.Run, sc *Script, res caseResult) (string, string) {
+	t.Helper()
+	n := len(sc.Cfg.Clients)
+	if n < 2 || sc.Cfg.Quota > 0 || sc.Cfg.GenFailAt > 0 || sc.Cfg.CallbackSleepS > 0 {
+		return "", "" // a per-user quota, a scripted generator failure and slow callbacks couple clients by design
+	}
+	for _, st := range sc.Steps {
+		if st.Opt != "" || st.TxFrom > 0 {
+			return "", "" // reservation tokens and borrowed transaction ids are shared harness state
+		}
+	}
+	who := int(vkit.Hash64(sc)>>8) % n
+	proj := &Script{Cfg: sc.Cfg}
+	for i, st := range sc.Steps {
+		switch st.Op {
+		case "Sleep":
+			if d, ok := res.x.SleptFor[i]; ok && d > 0 {
+				proj.Steps = append(proj.Steps, Step{Op: "Sleep", N: d, Life: -1})
+			}
+		case "CloseServer":
+			proj.Steps = append(proj.Steps, st)
+		default:
+			if ((st.C%n)+n)%n == who {
+				proj.Steps = append(proj.Steps, st)
+			}
+		}
+	}
+	r.Label("relational-projection")
+	pres := runCase(t, proj, false)
+	if pres.x == nil || len(pres.x.Findings) > 0 {
+		return "", "" // the projected history has its own finding: judged when it is generated directly
+	}
+	a, b := res.x.Obs[who], pres.x.Obs[who]
+	for i := 0; i < len(a) || i < len(b); i++ {
+		var sa, sb string
+		if i < len(a) {
+			sa = a[i]
+		}
+		if i < len(b) {
+			sb = b[i]
+		}
+		if sa != sb {
+			return "relational-divergence", fmt.Sprintf("client %d observes something else when the other clients' messages are removed from the history: observation %d is %q with them and %q without (of %d / %d observations)", who, i, sa, sb, len(a), len(b))
+		}
+	}
+
+	return "", ""
 }
